@@ -370,6 +370,13 @@ static const char *infer_expr_struct_type(CG *cg, ASTNode *node) {
     if (node->type == AST_CALL && node->as.call.return_struct_type_name) {
         return node->as.call.return_struct_type_name;
     }
+    if (node->type == AST_CALL && node->as.call.name) {
+        /* (f x).field: the struct type is the declared result type of f */
+        Function *callee = env_get_function(cg->env, node->as.call.name);
+        if (callee && callee->return_struct_type_name) {
+            return callee->return_struct_type_name;
+        }
+    }
 
     if (node->type == AST_FIELD_ACCESS) {
         /* Recursively determine: what struct type does the object have? */
